@@ -142,6 +142,10 @@ def run_shard(rec, tier, seed, shard, nshards):
         else:
             flavour = None
         kw, flavour = RC.retro_screen_kwargs(rng, flavour)
+        if name == "combo_filter" and rng.random() < 0.5:
+            kw = gen.realistic_screen_kwargs(rng, n_samples=(1, 3), n_drugs=(3, 6), n_doses=(1, 2), n_rows=(4, 40), n_plates=(1, 4), p_single=0.2, p_dup=0.1, p_double_control=0.05, observed="none", arity=3)
+            flavour = "arity3"
+            rec.count("combo_filter_arity3_cases")
         if name in ("MergeMin", "MergeTopBottom", "NPlatePerCellLine") and flavour == "few_per_sample":
             kw, flavour = RC.retro_screen_kwargs(rng, "per_sample")
         if name == "SparseCover":
